@@ -61,7 +61,7 @@ ASSUMPTIONS = [
 SHAPES = ['single', 'tuple', 'path', 'index', 'kwargs', 'dictout', 'SELF', 'SKIP',
           'literal']
 OPS = ['select', 'apply', 'assign', 'filter', 'batch', 'sink']
-INVALID_KINDS = ['dup_assign_prev', 'dup_assign_same_call', 'self_mixed',
+INVALID_KINDS = ['dup_assign_prev', 'dup_assign_same_call', 'dup_output_same_call', 'self_mixed',
                  'assign_no_keys', 'fbs_without_bs', 'negative_size',
                  'kwargs_without_fn', 'op_after_aggregate', 'dup_slice_name',
                  'chain_dup_name', 'chain_dup_agg_keys']
@@ -374,6 +374,8 @@ VARIANTS = {
                         'apply_then_assign', 'select_then_assign',
                         'assign_filter_assign', 'path_key'],
     'dup_assign_same_call': ['plain_twice', 'dict_name_and_plain', 'list_form'],
+    'dup_output_same_call': ['apply_twice', 'apply_dict_name_and_plain', 'select_twice',
+                             'apply_skip_twice_is_valid'],
     'self_mixed': ['self_first', 'self_last', 'assign_then_self', 'self_then_assign'],
     'assign_no_keys': ['no_keys', 'empty_tuple', 'after_assign'],
     'fbs_without_bs': ['apply', 'assign'],
@@ -425,6 +427,16 @@ def build_invalid(case, valid):
       t = T().assign(({a: 'o1'}, dup(z)), fn=_f2)
     else:
       t = T().assign([b, a, dup(z)], fn=_f)
+  elif kind == 'dup_output_same_call':
+    if var == 'apply_twice':
+      t = T().apply(_f2, output_keys=(a, dup(z)))
+    elif var == 'apply_dict_name_and_plain':
+      t = T().apply(_f2, output_keys=({a: 'o1'}, dup(z)))
+    elif var == 'select_twice':
+      t = T().select(('x', 'y'), output_keys=(a, dup(z)))
+    else:
+      # two dropped outputs are fine; a stored key repeated is not
+      t = T().apply(_f, output_keys=(Key.SKIP, Key.SKIP, a, dup(z)))
   elif kind == 'self_mixed':
     s = z if valid else Key.SELF
     if var == 'self_first':
